@@ -523,12 +523,30 @@ pub fn build_doc(c: &Case, scratch: &str) -> (String, Vec<String>) {
     (serde_yaml::to_string(&doc).unwrap_or_default(), desc)
 }
 
+/// balancer graphs with a chosen shape (random member lists almost always contain a self loop or a missing
+/// member): a ring through the routed balancer g0, a ring behind g0, or an acyclic chain ending in `direct`;
+/// `extras` add `direct` as a further member of some balancers. Member j < k is g<j>, j == k is `direct`.
+fn shaped_graph(k: usize, shape: u8, extras: &[u8]) -> Vec<Vec<u8>> {
+    let mut g: Vec<Vec<u8>> = (0..k)
+        .map(|i| match shape % 3 {
+            0 => vec![((i + 1) % k) as u8],
+            1 => vec![if i + 1 < k { (i + 1) as u8 } else { 1u8.min((k - 1) as u8) }],
+            _ => vec![(i + 1) as u8],
+        })
+        .collect();
+    for e in extras {
+        g[*e as usize % k].push(k as u8);
+    }
+    g
+}
+
 pub fn case_strategy() -> impl Strategy<Value = Case> {
     let m = (0u8..9, any::<u16>(), any::<u16>()).prop_map(|(kind, node, arg)| Mutation { kind, node, arg });
     let extra = prop_oneof![
         4 => Just(Extra::None),
         2 => prop::collection::vec(prop::collection::vec(prop_oneof![4 => 0u8..5, 1 => Just(100u8)], 0..4), 1..5).prop_map(Extra::LbGraph),
         3 => (prop::collection::vec(any::<u16>(), 4..80), any::<u8>()).prop_map(|(tape, place)| Extra::Script { tape, place }),
+        2 => (2usize..5, any::<u8>(), prop_oneof![2 => Just(vec![]), 1 => prop::collection::vec(any::<u8>(), 1..3)]).prop_map(|(k, shape, extras)| Extra::LbGraph(shaped_graph(k, shape, &extras))),
     ];
     (0u8..3, prop::collection::vec(m, 0..3), extra).prop_map(|(base, muts, extra)| Case { base, muts, extra })
 }
@@ -578,7 +596,7 @@ pub fn checks() -> Vec<Box<dyn SubCheck>> {
     vec![Box::new(vcore::PropCheck {
         property: "C18",
         name: "loader",
-        rule: "the loader of main() re-enacted on the real functions (serde_yaml -> Config, listeners/connectors::from_config, metrics/access-log init, every init(), set_rules, every verify()) over documents derived from three bases (a rich valid configuration using every listener/connector kind, TLS, auth, script log format and load balancers; a minimal one; the shipped config.yaml) by 0-2 tree mutations (delete, retype to null/bool/int/negative/u64/float/string/list/map/70 kB string, duplicate, randomise from a dictionary of type names / addresses / paths / scripts, rename key) plus optionally a generated load-balancer member graph (self loops, cycles, diamonds, missing members) or a generated (possibly ill-typed) script placed as filter / hashBy / log format; oracle: Ok or Err(non-empty message) within 30 s, never a panic (also in tasks the loader starts); non-trivial = at least one mutation or extra",
+        rule: "the loader of main() re-enacted on the real functions (serde_yaml -> Config, listeners/connectors::from_config, metrics/access-log init, every init(), set_rules, every verify()) over documents derived from three bases (a rich valid configuration using every listener/connector kind, TLS, auth, script log format and load balancers; a minimal one; the shipped config.yaml) by 0-2 tree mutations (delete, retype to null/bool/int/negative/u64/float/string/list/map/70 kB string, duplicate, randomise from a dictionary of type names / addresses / paths / scripts, rename key) plus optionally a generated load-balancer member graph (random member lists: self loops, cycles, diamonds, missing members; shaped graphs: a ring of 2-4 balancers through or behind the routed balancer, an acyclic chain ending in direct, optionally with direct as a further member) or a generated (possibly ill-typed) script placed as filter / hashBy / log format; oracle: Ok or Err(non-empty message) within 30 s, never a panic (also in tasks the loader starts); non-trivial = at least one mutation or extra",
         quick: 4000,
         thorough: 300_000,
         max_shrink: 400,
